@@ -370,6 +370,7 @@ class CodeBuilder:
             config.lazy_compilation
             and self.allow_postponed_evaluation
             and self.is_nailed
+            and self.dialect is None
         ):
             self._add_unpack_method_lines_lazy(method_name)
             return
@@ -827,6 +828,7 @@ class CodeBuilder:
             config.lazy_compilation
             and self.allow_postponed_evaluation
             and self.is_nailed
+            and self.dialect is None
         ):
             self._add_pack_method_lines_lazy(method_name)
             return
